@@ -595,6 +595,6 @@ func runUnit(w *casefile.Writer, r *rng.R, tier string) {
 	unitIter(w, r.Fork(), 400*k)
 	unitTok(w, r.Fork(), 150*k)
 	unitIDs(w, r.Fork(), 200*k)
-	unitDocs(w, r.Fork(), 300*k)
+	unitDocs(w, r.Fork(), 200*k)
 	unitTokTab(w, r.Fork(), 90*k)
 }
